@@ -1818,11 +1818,12 @@ pub fn verify_compatiblity<T: AbiExportable + ?Sized>(path: &str) -> Result<(), 
         let def = T::get_definition(version);
         let schema_file_name = Path::join(Path::new(path), format!("savefile_{}_{}.schema", def.name, version));
         if std::fs::metadata(&schema_file_name).is_ok() {
-            let previous_schema = load_file_noschema(&schema_file_name, 1)?;
+            let previous_schema = load_file_noschema(&schema_file_name, 2)?;
 
             def.verify_backward_compatible(version, &previous_schema, false)?;
         } else {
-            save_file_noschema(&schema_file_name, 1, &def)?;
+            // Version 2 of the definition format is the first to record whether a method is async.
+            save_file_noschema(&schema_file_name, 2, &def)?;
         }
     }
     Ok(())
